@@ -340,3 +340,67 @@ pub fn builder_model() -> Report {
     }
     r("builder_model", bound, cases, None)
 }
+
+// ------------------------------------------------------------------ C10
+type P = (u32, u32);
+fn stretches(mut starts: Vec<(P, usize)>) -> Vec<(P, P, usize)> {
+    starts.sort_by_key(|s| s.0);
+    let mut out = vec![];
+    for i in 0..starts.len() {
+        let s = starts[i].0;
+        let next = if i + 1 < starts.len() { starts[i + 1].0 } else { (u32::MAX, u32::MAX) };
+        out.push((s, std::cmp::min(next, (s.0, u32::MAX)), starts[i].1));
+    }
+    out
+}
+/// adjust_mappings against the interval-by-interval composition the property states.
+/// `dups`: allow duplicated positions (the statement's "non-empty overlap" clause; see known finding D10)
+pub fn adjust(dups: bool) -> Report {
+    let name: &'static str = if dups { "adjust_dups" } else { "adjust" };
+    let bound = "original maps of <= 3 tokens over generated positions {0,1}x{0,3,6} and adjustment maps of <= 3 tokens over original positions {0,1}x{0,2,3,6} with generated displacement {(0,0),(0,+2),(+1,-1... clipped)}, every order of the adjustment tokens";
+    let mut cases = 0u64;
+    let mut known: Option<String> = None;
+    let opos: Vec<P> = vec![(0, 0), (0, 3), (0, 6), (1, 0), (1, 3)];
+    let apos: Vec<P> = vec![(0, 0), (0, 2), (0, 3), (0, 6), (1, 0), (1, 2)];
+    let disp: Vec<(i32, i32)> = vec![(0, 0), (0, 2), (1, 0), (2, 5)];
+    let mut olists: Vec<Vec<P>> = vec![vec![]]; let mut layer: Vec<Vec<P>> = vec![vec![]];
+    for _ in 0..3 { let mut next = vec![]; for l in &layer { for &p in &opos { if l.last().map_or(false, |q| if dups { *q > p } else { *q >= p }) { continue; } let mut t = l.clone(); t.push(p); next.push(t); } } olists.extend(next.iter().cloned()); layer = next; }
+    let mut alists: Vec<Vec<(P, usize)>> = vec![vec![]]; let mut alayer: Vec<Vec<(P, usize)>> = vec![vec![]];
+    for _ in 0..2 { let mut next = vec![]; for l in &alayer { for &p in &apos { if l.iter().any(|q| q.0 == p) { continue; } for d in 0..disp.len() { let mut t = l.clone(); t.push((p, d)); next.push(t); } } } alists.extend(next.iter().cloned()); alayer = next; }
+    for ol in &olists { for al in &alists {
+        cases += 1;
+        let otoks: Vec<RawToken> = ol.iter().enumerate().map(|(i, &(l, c))| RawToken { dst_line: l, dst_col: c, src_line: 10 + i as u32, src_col: i as u32, src_id: 0, name_id: !0, is_range: i == 1 }).collect();
+        let atoks: Vec<RawToken> = al.iter().map(|&((l, c), d)| RawToken { dst_line: (l as i32 + disp[d].0) as u32, dst_col: (c as i32 + disp[d].1) as u32, src_line: l, src_col: c, src_id: 0, name_id: !0, is_range: false }).collect();
+        let mut sm = SourceMap::new(None, otoks.clone(), vec![], vec!["o.js".into()], None);
+        let adj = SourceMap::new(None, atoks.clone(), vec![], vec!["x".into()], None);
+        if let Err(p) = guarded(|| sm.adjust_mappings(&adj)) { return r(name, bound, cases, Some(format!("original {ol:?}, adjustment {al:?}: {p}"))); }
+        // reference
+        let os = stretches(otoks.iter().enumerate().map(|(i, t)| ((t.dst_line, t.dst_col), i)).collect());
+        let as_ = stretches(atoks.iter().enumerate().map(|(i, t)| ((t.src_line, t.src_col), i)).collect());
+        let mut want: Vec<(u32, u32, u32, u32, bool)> = vec![];
+        for o in &os { for a in &as_ {
+            let lo = std::cmp::max(o.0, a.0); let hi = std::cmp::min(o.1, a.1);
+            if lo < hi { let at = &atoks[a.2]; let ot = &otoks[o.2];
+                want.push(((lo.0 as i32 + (at.dst_line as i32 - at.src_line as i32)) as u32, (lo.1 as i32 + (at.dst_col as i32 - at.src_col as i32)) as u32, ot.src_line, ot.src_col, ot.is_range)); }
+        } }
+        want.sort();
+        // known finding D10: an original token whose stretch is EMPTY (another original token starts at the same
+        // position) still yields a token when it lies strictly inside an adjustment stretch
+        let mut want_d10 = want.clone();
+        for o in &os { if o.0 == o.1 { for a in &as_ { if a.0 < o.0 && o.0 < a.1 { let at = &atoks[a.2]; let ot = &otoks[o.2];
+            want_d10.push(((o.0.0 as i32 + (at.dst_line as i32 - at.src_line as i32)) as u32, (o.0.1 as i32 + (at.dst_col as i32 - at.src_col as i32)) as u32, ot.src_line, ot.src_col, ot.is_range)); } } } }
+        want_d10.sort();
+        let mut got: Vec<(u32, u32, u32, u32, bool)> = sm.tokens().map(|t| (t.get_dst_line(), t.get_dst_col(), t.get_src_line(), t.get_src_col(), t.is_range())).collect();
+        let ordered = got.windows(2).all(|w| (w[0].0, w[0].1) <= (w[1].0, w[1].1));
+        got.sort();
+        if !ordered { return r(name, bound, cases, Some(format!("original {ol:?}, adjustment (orig pos, displacement#) {al:?}: result not ordered by generated position"))); }
+        if dups && got != want && (got == want_d10 || { let mut a = got.clone(); let mut b = want_d10.clone(); a.iter_mut().for_each(|t| { t.2 = 0; t.3 = 0; t.4 = false; }); b.iter_mut().for_each(|t| { t.2 = 0; t.3 = 0; t.4 = false; }); a.sort(); b.sort(); a == b }) {
+            if known.is_none() { known = Some(format!("original tokens at {ol:?} (duplicate position => empty stretch), adjustment tokens {al:?}: {} tokens come out, the statement's non-empty overlaps give {}", got.len(), want.len())); }
+            continue;
+        }
+        if got != want { return r(name, bound, cases, Some(format!("original tokens at {ol:?}, adjustment tokens (original position, displacement# of {disp:?}) {al:?}: result (gen line, gen col, orig line, orig col, range) {got:?}, interval composition gives {want:?}"))); }
+        if sm.get_source(0) != Some("o.js") { return r(name, bound, cases, Some("sources touched".into())); }
+    } }
+    if let Some(k) = known { println!("{}", serde_json::json!({"known_finding": "D10", "first_input": k})); }
+    r(name, bound, cases, None)
+}
